@@ -79,6 +79,7 @@ type defPoint struct {
 	val    ssa.Value
 	isAddr bool
 	ty     types.Type
+	objPos token.Pos // declaration position of the variable (0: unknown)
 }
 
 func domDepth(b *ssa.BasicBlock) int {
@@ -96,11 +97,11 @@ func (vc *FuncVC) buildDefs() map[string][]defPoint {
 			switch x := ins.(type) {
 			case *ssa.Phi:
 				if x.Comment != "" {
-					defs[x.Comment] = append(defs[x.Comment], defPoint{b, i, x, false, x.Type()})
+					defs[x.Comment] = append(defs[x.Comment], defPoint{b, i, x, false, x.Type(), 0})
 				}
 			case *ssa.Alloc:
 				if x.Comment != "" && x.Comment != "varargs" && x.Comment != "complit" {
-					defs[x.Comment] = append(defs[x.Comment], defPoint{b, i, x, true, derefType(x.Type())})
+					defs[x.Comment] = append(defs[x.Comment], defPoint{b, i, x, true, derefType(x.Type()), x.Pos()})
 				}
 			case *ssa.DebugRef:
 				if id, ok := x.Expr.(*ast.Ident); ok {
@@ -108,7 +109,11 @@ func (vc *FuncVC) buildDefs() map[string][]defPoint {
 					if x.IsAddr {
 						ty = derefType(ty)
 					}
-					defs[id.Name] = append(defs[id.Name], defPoint{b, i, x.X, x.IsAddr, ty})
+					var op token.Pos
+					if o := x.Object(); o != nil {
+						op = o.Pos()
+					}
+					defs[id.Name] = append(defs[id.Name], defPoint{b, i, x.X, x.IsAddr, ty, op})
 				}
 			}
 		}
@@ -121,6 +126,14 @@ func (vc *FuncVC) resolver(defs map[string][]defPoint, b *ssa.BasicBlock, idx in
 	return func(name string, st *State) (SVal, bool) {
 		if v, ok := extra[name]; ok {
 			return v, true
+		}
+		// in the entry state (old(...)) a parameter is its entry value, also when the function keeps it in a cell
+		if st == vc.entry && st != nil {
+			for _, p := range vc.fn.Params {
+				if p.Name() == name {
+					return SVal{vc.val(p), p.Type()}, true
+				}
+			}
 		}
 		var best *defPoint
 		bestDepth := -1
@@ -160,6 +173,26 @@ func (vc *FuncVC) resolver(defs map[string][]defPoint, b *ssa.BasicBlock, idx in
 			if dd > bestDepth {
 				bestDepth = dd
 				best = d
+			}
+		}
+		// a variable that lives in a cell (a local whose address is taken or that a closure captures) is read from
+		// the cell in the current state: a value recorded by an earlier DebugRef is only a snapshot of it
+		if best != nil && !best.isAddr && best.objPos != 0 {
+			for i := range defs[name] {
+				d := &defs[name][i]
+				if al, isAlloc := d.val.(*ssa.Alloc); isAlloc && d.isAddr && al.Pos() == best.objPos && (d.b == b || d.b.Dominates(b)) {
+					best = d
+					break
+				}
+			}
+			if !best.isAddr {
+				for _, fv := range vc.fn.FreeVars {
+					if fv.Name() == name && fv.Pos() == best.objPos {
+						if pt, ok := under(fv.Type()).(*types.Pointer); ok {
+							return SVal{vc.load(st, vc.val(fv), vc.tc.SortOf(pt.Elem())), pt.Elem()}, true
+						}
+					}
+				}
 			}
 		}
 		if best != nil {
@@ -412,6 +445,9 @@ func (vc *FuncVC) run() {
 			vc.assume(True, Not(Eq(t, Null)))
 			// a captured variable is a cell of its own
 			vc.assume(True, And(Eq(App(SInt, "rkind", t), IntLit(0)), Eq(App(SRef, "root", t), t), App(SBool, "iscell", t)))
+			// ... and a local variable of the enclosing function, never a package-level variable
+			vc.tc.Declare("gid", "(declare-fun gid (Ref) Int)")
+			vc.assume(True, Eq(App(SInt, "gid", t), IntLit(0)))
 			for j := 0; j < i; j++ {
 				if _, ok := under(fn.FreeVars[j].Type()).(*types.Pointer); ok {
 					vc.assume(True, Not(Eq(t, vc.vals[fn.FreeVars[j]])))
@@ -769,8 +805,20 @@ func (vc *FuncVC) loopHead(l *loopInfo, b *ssa.BasicBlock, pre *State, preds []*
 	for bb := range l.body {
 		for _, ins := range bb.Instrs {
 			if s, ok := ins.(*ssa.Store); ok {
-				if a, ok := s.Addr.(*ssa.Alloc); ok && !l.body[a.Block()] {
+				base := s.Addr
+				for {
+					if fa, ok := base.(*ssa.FieldAddr); ok {
+						base = fa.X
+						continue
+					}
+					break
+				}
+				if a, ok := base.(*ssa.Alloc); ok && !l.body[a.Block()] {
 					fr.mods = append(fr.mods, modLoc{kind: "tree", t: vc.val(a)})
+				}
+				// a variable captured by this closure (its cell belongs to the enclosing function)
+				if fv, ok := base.(*ssa.FreeVar); ok {
+					fr.mods = append(fr.mods, modLoc{kind: "tree", t: vc.val(fv)})
 				}
 			}
 			// maps created by this function before the loop and updated in it
@@ -952,8 +1000,16 @@ func (vc *FuncVC) frameCheckAddr(b *ssa.BasicBlock, pos token.Pos, addrV ssa.Val
 	if !vc.withFrame {
 		return
 	}
-	if _, isFree := addrV.(*ssa.FreeVar); isFree {
-		// a variable captured by reference is the closure's own state; what it may become is governed by the
+	fbase := addrV
+	for {
+		if fa, ok := fbase.(*ssa.FieldAddr); ok {
+			fbase = fa.X
+			continue
+		}
+		break
+	}
+	if _, isFree := fbase.(*ssa.FreeVar); isFree {
+		// a variable captured by reference (or a field of a captured struct variable) is the closure's own state; what it may become is governed by the
 		// enclosing function's callback invariant, not by a frame
 		return
 	}
@@ -1132,6 +1188,12 @@ func (vc *FuncVC) instr(b *ssa.BasicBlock, idx int, ins ssa.Instruction, st *Sta
 		vc.vals[x] = vc.define(x.Name(), App(SSlice, "mk_slice", a, IntLit(0), ln, cp))
 	case *ssa.MakeInterface:
 		vc.vals[x] = vc.define(x.Name(), tc.Box(x.X.Type(), vc.val(x.X)))
+		// errors.Is(e, t) for an error value whose dynamic type has neither an Is nor an Unwrap method is e == t
+		if plainErrorType(x.X.Type()) {
+			tc.Declare("err_is", "(declare-fun err_is (Iface Iface) Bool)")
+			tq := vc.boundVar("t", SIface)
+			vc.assume(reach, Forall([]Term{tq}, Eq(App(SBool, "err_is", vc.vals[x], tq), Eq(tq, vc.vals[x])), App(SBool, "err_is", vc.vals[x], tq)))
+		}
 	case *ssa.MakeClosure:
 		fnv := x.Fn.(*ssa.Function)
 		id, ok := vc.funcIDs[FuncKey(fnv)]
@@ -1902,4 +1964,32 @@ func rangedSlice(l *loopInfo) ssa.Value {
 		}
 	}
 	return nil
+}
+
+// errorsNewTypeID is the reserved dynamic-type id of values made by errors.New (*errors.errorString).
+const errorsNewTypeID = 999001
+
+// plainErrorType: a concrete type with an Error method and neither Is nor Unwrap in its method set.
+func plainErrorType(t types.Type) bool {
+	if _, isIface := under(t).(*types.Interface); isIface {
+		return false
+	}
+	ms := types.NewMethodSet(t)
+	if ms.Lookup(nil, "Error") == nil {
+		hasErr := false
+		for i := 0; i < ms.Len(); i++ {
+			if ms.At(i).Obj().Name() == "Error" {
+				hasErr = true
+			}
+		}
+		if !hasErr {
+			return false
+		}
+	}
+	for i := 0; i < ms.Len(); i++ {
+		if n := ms.At(i).Obj().Name(); n == "Is" || n == "Unwrap" {
+			return false
+		}
+	}
+	return true
 }
